@@ -9,8 +9,8 @@ PY = '/venv/bin/python'
 
 # property -> (technique, what is decided, what is not)
 P = {
-    'C01': ('AST extraction + constant folding vs ISO oracle tables; per-mode packing normal forms; '
-            'written-bits = budgeted-bits multiset comparison; truth table of pair predicates over [0,65535]',
+    'C01': ('AST extraction + constant folding vs ISO oracle tables; abstract interpretation of make_segment as a whole over the complete domain of one packing group per mode (truth table, all 65536 byte pairs in the thorough tier); '
+            'written-bits = budgeted-bits comparison through an _encode stage trace with the real Segments class; truth table of pair predicates over [0,65535]; regex AST of the alphanumeric pattern',
             'tables, packing formulas, bit budget, ECI gating, merge legality, kanji/hanzi predicate inside the '
             "packer's injective domain, text->bytes order",
             'the round trip itself (placement/masking inverse for every content, codec correctness)'),
@@ -20,18 +20,16 @@ P = {
             'alignment/format/version/dark-module cells and bit->cell maps of both copies for all 44 sizes, '
             'reservation = written regions, cell conservation, metadata flow',
             'nothing about function patterns; placement of data bits is C03'),
-    'C03': ('constant folding vs GF(256)/generator/Table-9 oracles; role-based normal forms of the division loop (single-assignment locals inlined); abstract interpretation of make_final_message and add_codewords on marker codewords / position markers for every version and level',
+    'C03': ('constant folding vs GF(256)/generator/Table-9 oracles; role-based normal forms of the division loop (single-assignment locals inlined), backed by a counterexample search on probe layouts when the shape is not recognised (a difference is a witness, no difference is UNKNOWN); abstract interpretation of make_final_message and add_codewords on marker codewords / position markers for every version and level',
             'field tables, 18 generator polynomials, 168 block layouts, division loop index forms, operands and bounds, final message order incl. M1/M3 half codeword and remainder bits for every version/level, placement order = ISO 7.7.3 zigzag for the placed markers, surplus refused',
             'that the division computes the Reed-Solomon remainder for every data block (the loop is checked by its index and operand forms, not executed on data); the RS correctability theorem'),
     'C04': ('capacity table vs oracle (168 cells); abstract interpretation of find_version / encode / encode_sequence over a finite domain of option flags and capacity distances with segment construction, version search and _encode replaced by recorders (fit witness: the segments searched are the segments encoded, version >= result)',
             'capacity table, mode availability, first admissible fitting version for every admissible-range combination, requested-version test, fit witness per _encode call on every path of encode / encode_sequence, bits budgeted = bits written',
             'the payload bit count of a concrete content (its formula is C01.R2/R3)'),
-    'C05': ('constant folding (monotone capacities for 44 versions); loop-shape pattern matching; reaching '
-            'definitions of version/error in _encode; guard dominance',
-            'level order and strictly decreasing capacities, boost loop shape, Micro level lists, version has one '
-            'definition, boost only under the flag, default L and H/Micro refusal, same length measure',
+    'C05': ('constant folding (monotone capacities for 44 versions); abstract interpretation of boost_error_level (decision table over version x requested level x both sides of every capacity x segment count) and of _encode with the real booster on a segment model whose bit count depends on the version asked about (stage trace); decision table of encode',
+            'level order and strictly decreasing capacities, highest fitting level of the version for every boundary, Micro level lists, version unchanged, boost only under the flag, default L and H/Micro refusal, same length measure (eci / is_sa / version) as the version search',
             '"highest level that still holds this content" for a concrete content'),
-    'C06': ('finite truth tables of the 8 mask predicates over one period vs ISO Table 10; abstract interpretation of the selection function with arbitrary score vectors; normal forms and propositional comparison of the N1/N2/N3 scoring conditions (role-based, truth tables over their atoms); self-overlap shift of the N3 literal',
+    'C06': ('finite truth tables of the 8 mask predicates over one period vs ISO Table 10; abstract interpretation of the selection function with arbitrary score vectors; normal forms and propositional comparison of the N1/N2/N3 scoring conditions (role-based, truth tables over their atoms), backed by a counterexample search on 193 probe symbols against an ISO 7.8.3.1 oracle when the shape is not recognised (witness or UNKNOWN); self-overlap shift of the N3 literal; N4 as a backward slice evaluated for every dark count',
             'mask predicates, lowest-numbered optimum, requested-mask path, evaluation before format info, mask region = complement of function patterns, N1 thresholds and scores at all four sites, N2 condition, N3 literal / window / edge condition / resume offset, N4 and Micro formulas for every dark count',
             'that the N1/N2 counting loops compute the ISO counts for every matrix (their conditions and increments are checked, the scan over a matrix is not executed)'),
     'C07': ('abstract interpretation of find_mode with the content abstracted to isdigit() and every compiled pattern / the kanji predicate to one answer (decision table over the eight outcomes); regex AST of the alphanumeric pattern per consulting method (match / fullmatch / search); truth table of is_kanji; abstract interpretation of the head of make_segment and of encode over mode x version',
@@ -55,8 +53,8 @@ P = {
     'C13': ('finite truth tables of the pad/terminator helpers (interpreted) over every (capacity, length) pair of every version class; _encode stage trace with recording stand-ins',
             'terminator count, pad-bit count range, pad codeword alternation/count, M1/M3 tail, order of the three helpers on one bit buffer with current lengths, capacity of the boosted level',
             'nothing beyond the pure arithmetic (these helpers are data-independent)'),
-    'C14': ('exception-class census of all raise statements; handled-lookup discipline on user-keyed tables; guard '
-            'dominance of exclusions before _encode; call-graph acyclicity and loop progress; CLI exit paths',
+    'C14': ('exception-class census of all raise statements; handled-lookup discipline on user-keyed tables; decision tables of the normalisers, of encode / encode_sequence (exclusions refused before _encode) and of the colour parsers over malformed and well-formed values; serialisers rendered with bad scale / border (refusal before the output is opened); '
+            'call-graph acyclicity and loop progress arguments (growing / shrinking counters, find-search loops), bounded use of unbounded iterators; CLI exit paths by interpretation',
             'raise discipline, handled lookups and case folds, exclusions, asserts, termination, pair indexing and '
             'colour indexing guards, CLI exit status',
             'absence of every implicit exception for every value (whole-program value analysis)'),
